@@ -16,6 +16,9 @@ Rebuilt reads (props_ext/c24_rebuild.py): sources that store ENCODED samples rea
 that rebuilds the source node must still read through the same getitem / lock / asarray / fancy / inline_array / meta
 (signatures from_array-rebuild:values[:read-without-getitem], :getter-handed-other-lock/-asarray, :option-not-carried:<opt>, …).
 The random program search also draws decoding getters (d4 / d2).
+Same-named sources (props_ext/c24_named.py): 2-3 DIFFERENT sources wrapped with one user-supplied `name=`, one slice / slice-rechunk
+chain pushed into each read, every history of build / optimize / compute / drop with the earlier collections still alive; each read
+must return its own source's elements (signatures from_array-named:values[:elements-of-another-source], …).
 """
 from __future__ import annotations
 
@@ -1527,7 +1530,13 @@ def run(ctx, replay=None):
         "incl. auto / balance / storage-grid multiples, slice, int, both orders, below elemwise / transpose, next to take, "
         "chains) x every read transform (getitem= callables that DECODE the stored samples: offset, scale, cast; 4- and "
         "2-argument; default getter) x lock / asarray / fancy / inline_array / meta / optimize values; oracles: NumPy on the "
-        "decoded array, bounds, the asarray/lock handed to the getter, read options of the rebuilt source nodes"
+        "decoded array, bounds, the asarray/lock handed to the getter, read options of the rebuilt source nodes. "
+        "same-named sources (harness/props_ext/c24_named.py): 2-3 different sources (NumPy below / above the eager-copy limit, recording, "
+        "storage grid, mixed; same or different shapes and chunks) wrapped with ONE user-supplied name=, one chain (1-3 unit slices, the "
+        "first narrowing; then rechunks / slices in every order for sources without a storage grid; controls without pushdown) applied to "
+        "each, as a grid over 10 histories (sequential with the first collection alive, both built first and computed in either order, "
+        "optimized first, rebuilt, recomputed, three sources, first collection dropped) x source kinds; every compute is compared with "
+        "NumPy on its own source; distinct by (family, kinds, history, op string, shapes differ, limit)"
     )
     ctx.assumptions = [
         "NumPy basic indexing / slice assignment is a per-axis product (the theorems are per axis)",
@@ -1537,11 +1546,23 @@ def run(ctx, replay=None):
         "oracle is applied only when the default getters or a 4-argument getitem are in use",
         "with asarray=False on a lazy-window store the user defers the read on purpose: not generated",
         "zero-size probes (meta_from_array reads store[0:0,...] at graph construction) are not subject to the lock oracle",
+        "same-named reads are computed one collection at a time (in one graph two reads with one name share their keys by construction); "
+        "chains that leave an expression above a same-named read (rechunk of the bare read, integer index, op over a pushed slice) already "
+        "return the first source's elements on the unchanged tree: evaluated and recorded in notes, not part of the reporting stream",
     ]
     if replay is not None:
         case = replay.get("case", replay)
         prog = case.get("program")
-        if prog is not None and prog.get("stream") == "rebuild":
+        if prog is not None and prog.get("stream") == "named":
+            from harness.props_ext.c24_named import run_named_case
+
+            sig, det = run_named_case(prog)
+            if sig is not None:
+                pre = "from_array-named:above-read" if str(prog.get("family", "")).startswith("probe:") else "from_array-named"
+                ctx.fail(f"{pre}:{sig}", {"kind": "program", "program": prog, "details": det}, "replayed program still fails")
+            ctx.count(("replay",))
+            ctx.sample({"program": prog, "outcome": sig or "ok"})
+        elif prog is not None and prog.get("stream") == "rebuild":
             from harness.props_ext.c24_rebuild import run_rebuild_case
 
             sig, det = run_rebuild_case(prog)
@@ -1571,6 +1592,9 @@ def run(ctx, replay=None):
     from harness.props_ext.c24_rebuild import rebuild_search
 
     rebuild_search(ctx)
+    from harness.props_ext.c24_named import named_search
+
+    named_search(ctx)
     search(ctx, no_locks=unsafe)
     if ctx.disagreements or ctx.audit.get("broken"):
         targeted(ctx)
